@@ -244,6 +244,11 @@ func (c *pathParser) addSeg(segString []byte) error {
 
 	L := len(c.points)
 	rel := false
+	if (c.lastKey == 'z' || c.lastKey == 'Z') && op != 'z' && op != 'Z' {
+		// a command that follows a closepath starts a new sub-path at the
+		// same initial point as the closed one (SVG 1.1, 8.3.3)
+		c.inPath = true
+	}
 	switch op {
 	case 'z':
 		fallthrough
